@@ -77,6 +77,9 @@ func (r *Rand) Bool(p float64) bool { return r.Float() < p }
 // Pick returns one of the given ints.
 func (r *Rand) Pick(xs ...int) int { return xs[r.Intn(len(xs))] }
 
+// PickS returns one of the given strings.
+func (r *Rand) PickS(xs ...string) string { return xs[r.Intn(len(xs))] }
+
 // Perm returns a permutation of 0..n-1.
 func (r *Rand) Perm(n int) []int {
 	p := make([]int, n)
